@@ -70,6 +70,25 @@ def verify_function(reg: Registry, qualname: str, tier="quick", ghosts=None) -> 
     except OutsideSubset as e:
         rep.error = f"outside-subset: {e}"
         rep.error_kind = "undecided"
+        # the function uses something the generator does not model.  If it CHANGED since the baseline, can be executed natively, and
+        # observably behaves differently from its baseline version, that difference is reported (with the input) against the
+        # function's contract as a whole; if it is indistinguishable the analysis simply stays undecided.
+        try:
+            c = reg.contracts.get(qualname)
+            if c is not None and _native_ok(c) and not c.bounded:
+                from .search import differential
+                d = differential(E, reg, qualname, c, seed=int(os.environ.get("VERIF_SEED", "0") or 0))
+                if d is not None and d["difference"] is not None:
+                    rep.obligations.append({
+                        "id": f"{qualname}/differential[the contract was proved for the baseline version; the changed body cannot be analysed and behaves differently]",
+                        "func": qualname, "kind": "differential", "label": None, "status": "refuted", "backend": "native differential run",
+                        "secs": 0.0, "reason": f"{rep.error}; " + d["difference"]["summary"], "model": None, "path_notes": [], "goal_size": 0,
+                        "replay": {"reproduced": True, "detail": d["difference"]["summary"], "inputs": d["difference"]["inputs"]}, "clause": None})
+                    rep.error, rep.error_kind = None, None
+                elif d is not None and d["runs"] >= 40:
+                    rep.error += f" (indistinguishable from the baseline version on {d['runs']} generated inputs)"
+        except Exception:      # noqa
+            pass
     except RecursionError as e:
         rep.error = f"outside-subset: recursion depth ({e})"
         rep.error_kind = "undecided"
@@ -464,9 +483,15 @@ def _discharge_all(E, rep):
                 o.reason = (f"not refuted: the changed function is indistinguishable from its baseline version on {d['runs']} generated inputs "
                             f"(same results, same effects on its arguments); solver: {o.reason}")
         elif d is not None and d["difference"] is not None:
+            # the proof no longer goes through AND the real function observably behaves differently from the version the proof was
+            # made for: reported as a failure of these obligations, with the distinguishing input
             for o in pending:
-                if o.status == "refuted":
-                    o.reason = (o.reason or "") + " [the changed function also BEHAVES differently from its baseline version: " + d["difference"]["summary"] + "]"
+                was = o.status
+                o.status = "refuted"
+                o.backend = (o.backend or "") + "+differential"
+                o.reason = ((o.reason or "") if was == "refuted" else f"no longer provable ({o.reason})") + \
+                    "; the changed function BEHAVES differently from its baseline version: " + d["difference"]["summary"]
+                o.replay = {"reproduced": True, "detail": d["difference"]["summary"], "inputs": d["difference"]["inputs"]}
     for o in E.obls:
         rep.obligations.append({
             "id": o.id, "func": o.func, "kind": o.kind, "label": o.label, "status": o.status, "backend": o.backend,
